@@ -60,6 +60,10 @@ func catalogue(now time.Time) []expiry {
 		add("trailing-newline-"+d.name, d.t.Format(schema)+"\n")
 		add("short-fields-"+d.name, d.t.Format("2006-1-2T15:4:5Z"))
 	}
+	// a one-digit hour: earlier today (by text comparison it sorts after the two-digit hour of the clock), later today, other days
+	add("one-digit-hour-earlier-today", now.Format("2006-01-02")+"T6:00:00Z")
+	add("one-digit-hour-yesterday", now.AddDate(0, 0, -1).Format("2006-01-02")+"T9:59:59Z")
+	add("one-digit-hour-tomorrow", now.AddDate(0, 0, 1).Format("2006-01-02")+"T6:00:00Z")
 	add("impossible-feb-30", "2031-02-30T00:00:00Z")
 	add("impossible-feb-29-nonleap", "2031-02-29T00:00:00Z")
 	add("leap-feb-29", "2032-02-29T00:00:00Z")
@@ -82,8 +86,19 @@ var exact = regexp.MustCompile(`^(\d{4})-(\d{2})-(\d{2})T(\d{2}):(\d{2}):(\d{2})
 // refFuture: well-formed UTC timestamp in the exact schema, valid calendar
 // date, strictly later than now. dontcare: equal to now / fractional seconds.
 func refFuture(s string, now time.Time) (future bool, dontcare bool) {
-	if m := regexp.MustCompile(`^(\d{4}-\d{2}-\d{2}T\d{2}:\d{2}:\d{2})\.\d+Z$`).FindStringSubmatch(s); m != nil {
-		return false, true
+	// Forms outside the exact schema that Go's parser documents as tolerated and that still name one UTC
+	// instant (fractional seconds, a one-digit hour): whether they count as well-formed is left open, but an
+	// instant that has passed must be refused under either reading.
+	if m := regexp.MustCompile(`^(\d{4}-\d{2}-\d{2}T)(\d{1,2})(:\d{2}:\d{2})(\.\d+)?Z$`).FindStringSubmatch(s); m != nil && (len(m[2]) == 1 || m[4] != "") {
+		h := m[2]
+		if len(h) == 1 {
+			h = "0" + h
+		}
+		strictFuture, dc := refFuture(m[1]+h+m[3]+"Z", now)
+		if dc || strictFuture {
+			return false, true // now or later (a fraction may push it past now): open
+		}
+		return false, false
 	}
 	m := exact.FindStringSubmatch(s)
 	if m == nil {
@@ -116,6 +131,8 @@ type Case struct {
 	DSSE    bool     `json:"dsse"`
 	Entry   int      `json:"entry"`
 	Clock   []string `json:"clock"` // RFC3339 instants the owned clock shows for successive verifications; empty = real clock
+	// Then: further layouts (their expiries) verified afterwards in the same process, under the last clock value
+	Then []expiry `json:"then,omitempty"`
 }
 
 func silence() func() {
@@ -158,7 +175,30 @@ func execute(c *mcx.Ctx, cs Case) (acc []bool, markers []int) {
 	return
 }
 
+// judgeSeq: the layouts of cs and cs.Then one after the other in one process; each verdict must be the one its
+// own expiry determines.
+func judgeSeq(c *mcx.Ctx, cs Case) (obs, sig, class string) {
+	all := append([]expiry{{cs.Expires, cs.Class}}, cs.Then...)
+	class = "sequence"
+	for i, e := range all {
+		one := cs
+		one.Expires, one.Class, one.Then = e.Text, e.Class, nil
+		o, s, _ := judge(c, one)
+		obs += fmt.Sprintf("<%d: %q %s>", i, e.Text, o)
+		if s != "" && sig == "" {
+			sig = s
+			if i > 0 {
+				sig += "|after-layouts-with-other-expiries"
+			}
+		}
+	}
+	return
+}
+
 func judge(c *mcx.Ctx, cs Case) (obs, sig, class string) {
+	if len(cs.Then) > 0 {
+		return judgeSeq(c, cs)
+	}
 	acc, markers := execute(c, cs)
 	wr := "legacy"
 	if cs.DSSE {
@@ -254,6 +294,17 @@ func run(c *mcx.Ctx) {
 				}
 				rec(nil)
 			}
+			// 2b. expiry histories in one process: every ordered pair of catalogue entries, the second presented twice
+			if c.Thorough() || (!dsse && entry == 0) {
+				cat := catalogue(T)
+				for _, e1 := range cat {
+					for _, e2 := range cat {
+						if e1.Text != e2.Text {
+							do(Case{Expires: e1.Text, Class: e1.Class, DSSE: dsse, Entry: entry, Clock: []string{ts}, Then: []expiry{e2, e2}})
+						}
+					}
+				}
+			}
 			// 3. real clock, far away from now only
 			now := time.Now().UTC()
 			for _, e := range []expiry{
@@ -279,7 +330,8 @@ func replay(c *mcx.Ctx, raw json.RawMessage) (string, string) {
 func init() {
 	mcx.Register(&mcx.Driver{
 		ID: "C06", Run: run, Replay: replay, Workers: 8,
-		Rule: "full product: expiry catalogue (instants from T-50y to year 9999 in the exact schema incl. T-1s/T/T+1s; the same instants as RFC3339 with offsets, lower-case z, no suffix, space separator, date only, fractional, RFC1123, Unix seconds, padded; impossible dates; 5-digit/zero years; empty/blank/arbitrary) " +
+		Rule: "full product: expiry catalogue (instants from T-50y to year 9999 in the exact schema incl. T-1s/T/T+1s; the same instants as RFC3339 with offsets, lower-case z, no suffix, space separator, date only, fractional, RFC1123, Unix seconds, padded; one-digit hour earlier today / yesterday / tomorrow; impossible dates; 5-digit/zero years; empty/blank/arbitrary) " +
+			"plus expiry histories in one process: every ordered pair of catalogue entries as three successive verifications (first, second, second again; quick: legacy wrapper and InTotoVerify, thorough: all four) " +
 			"x {legacy, DSSE} x {InTotoVerify, InTotoVerifyWithDirectory} on an otherwise accepting 2-step chain with one marker inspection, with the package clock owned (fixed at T=2030-06-15T12:00:00Z); plus every sequence of 2 (thorough: 3) verifications in one process with the clock at {T-1h, T, T+1h} and expiries in between; plus four real-clock cases a day or more away from now. " +
 			"A case is distinct by construction; non-trivial = the reference decides it (expiry equal to now and fractional seconds are don't-care). states = cases, transitions = verifications.",
 		Assumptions: []string{
